@@ -367,6 +367,20 @@ class PartialJoin(UnaryOperation):
                 # include the columns added by the join.  Note that because we
                 # require common_columns to be explicit at this point, the
                 # projection cannot change them.
+                hidden = current.target.columns - current.operation.columns
+                if not hidden.isdisjoint(self.fixed.columns):
+                    # Moving the join upstream would join the fixed relation
+                    # to columns the projection removes, shadowing (or being
+                    # shadowed by) the fixed relation's columns of that name.
+                    return UnaryCommutator(
+                        first=None,
+                        second=current.operation,
+                        done=False,
+                        messages=(
+                            f"projection hides columns {set(hidden & self.fixed.columns)} "
+                            f"that are also present in {self.fixed}",
+                        ),
+                    )
                 return UnaryCommutator(
                     first=self,
                     second=Projection(frozenset(self.applied_columns(current))),
